@@ -673,8 +673,8 @@ def dispatch(E, c, tc, args):
                     if isinstance(xv, VEnum) and xv.ty == "Option":
                         if xv.variant == "Some":
                             if isinstance(x, VRef):
-                                rr = ref_chain(E, x)
-                                out.append(VRef(rr.cell, rr.path + (("downcast", "Some", 1), ("field", 0))) if False else xv.fields[0])
+                                rr = ref_chain(E, x)            # &Option<T> yields &T
+                                out.append(VRef(rr.cell, rr.path + (("field", 0),)))
                             else:
                                 out.append(xv.fields[0])
                     elif isinstance(xv, VSeq):
